@@ -180,6 +180,32 @@ theorem findCtor_code (m : Machine) (hn : m.states.Nodup) (s : Name) (hs : s ∈
   rw [stateImpls_code, stateImpls_typestate, filter_eq_of_nodup hn hs]
   split <;> simp_all
 
+/-! ### the constructor -/
+
+theorem ctorState_code (m : Machine) (hi : m.initial ∈ m.states) : m.code.ctorState = some m.initial := by
+  unfold Code.ctorState Machine.code genTypestate genStateImpls
+  simp only [List.findSome?_append]
+  have h1 : (genMarkers m).findSome? Item.ctorState? = none := by
+    rw [List.findSome?_eq_none_iff]; intro x hx
+    simp only [genMarkers, List.mem_map] at hx; obtain ⟨_, _, rfl⟩ := hx; rfl
+  have h2 : [genMachineStruct m].findSome? Item.ctorState? = none := by simp [genMachineStruct, Item.ctorState?]
+  have h3 : (m.states.map (genStateImpl m)).findSome? Item.ctorState? = some m.initial := by
+    rw [List.findSome?_map]
+    generalize m.states = l at hi
+    induction l with
+    | nil => cases hi
+    | cons x xs ih =>
+      simp only [List.findSome?_cons, Function.comp, genStateImpl]
+      by_cases hx : x = m.initial
+      · simp [hx, Item.ctorState?]
+      · simp only [hx, ↓reduceIte, Item.ctorState?]
+        rcases List.mem_cons.mp hi with h | h
+        · exact absurd h.symm hx
+        · exact ih h
+  rw [h1, h2, h3]
+  simp
+
+
 /-! ### validation facts -/
 
 theorem nodup_of_firstDup : ∀ (l seen : List Name), firstDup seen l = false →
